@@ -234,7 +234,7 @@ func (c *Ctx) enterLoopHead(st *State, fr *Frame, li *loopInfo, pred *ssa.BasicB
 	}
 	// havoc
 	cells, fields, whole, all := c.loopWrites(fr, li)
-	for key := range cells {
+	for _, key := range sortedCellKeys(cells) {
 		cur, ok := st.cells[key]
 		var t interface{ }
 		_ = t
@@ -277,7 +277,8 @@ func (c *Ctx) enterLoopHead(st *State, fr *Frame, li *loopInfo, pred *ssa.BasicB
 	if all {
 		c.havocAll(st)
 	} else {
-		for key, bases := range fields {
+		for _, key := range sortedStrKeys(fields) {
+			bases := fields[key]
 			info := c.V.heapKeys[key]
 			precise := !whole[key]
 			for _, b := range bases {
@@ -297,7 +298,7 @@ func (c *Ctx) enterLoopHead(st *State, fr *Frame, li *loopInfo, pred *ssa.BasicB
 				c.heapHavoc(st, key, arrSort(info.Sort))
 			}
 		}
-		for key := range whole {
+		for _, key := range sortedKeys(whole) {
 			if key == aliveKey {
 				old := c.aliveCur(st)
 				nw := c.heapHavoc(st, aliveKey, old.Sort)
@@ -516,4 +517,42 @@ func (c *Ctx) stableBaseTerm(st *State, fr *Frame, v ssa.Value) Term {
 		}
 	}
 	return c.term(st, fr, v)
+}
+
+func sortedStrKeys(m map[string][]ssa.Value) []string {
+	var out []string
+	for k := range m {
+		out = append(out, k)
+	}
+	sort.Strings(out)
+	return out
+}
+
+// sortedCellKeys orders cell keys deterministically (by kind, name and source position)
+func sortedCellKeys(m map[interface{}]bool) []interface{} {
+	type ent struct {
+		k interface{}
+		s string
+	}
+	var es []ent
+	for k := range m {
+		s := ""
+		switch x := k.(type) {
+		case *ssa.Alloc:
+			s = fmt.Sprintf("a|%s|%09d|%s", x.Comment, int(x.Pos()), x.Name())
+		case *ssa.FreeVar:
+			s = "f|" + x.Name()
+		case *ssa.Global:
+			s = "g|" + x.Name()
+		case string:
+			s = "s|" + x
+		}
+		es = append(es, ent{k, s})
+	}
+	sort.Slice(es, func(i, j int) bool { return es[i].s < es[j].s })
+	var out []interface{}
+	for _, e := range es {
+		out = append(out, e.k)
+	}
+	return out
 }
